@@ -243,7 +243,9 @@ let run_model lines =
       L.iter (fun line ->
           let (ls, _) = split_line line in
           let (s', o) = observe1 !s (parse_label ls) in
-          s := s'; print_endline (show_obs o)) rest
+          s := s'; print_endline (show_obs o)) rest;
+      Printf.printf "@taint self=%s iter=%s size=%s unlock=%s\n" (sb !s.taint_self)
+        (sb !s.taint_iter) (sb !s.taint_size) (sb !s.taint_unlock)
 
 let main args =
   let lines = L.filter (fun l -> S.trim l <> "") (read_lines ()) in
